@@ -23,7 +23,7 @@ const classifierPkg = "mod/internal/tableclass"
 // walks layout tables.
 func C18(p *core.Program, r *core.Report) {
 	r.Explanation = "Decision-list conformance: every normalised branch path of tableclass.Classifier.Classify (loops unrolled once, comparisons normalised to x<=c / x==c, trivial helpers inlined) is replayed against the ordered cascade written down from the property text with three-valued logic; the code may not reach an outcome before a higher rule is decided and must reach the same (type, reason). Literal role/tag tables are compared by key set; getDirectDescendants and the converter's table case are checked the same way."
-	r.NotCovered = "rowspan/colspan arithmetic in getRowAndColumnCount, hasValidText, CSS based rules of the original heuristic (not ported), behaviour for more than one loop iteration (loops are abstracted to 0/1 iterations)."
+	r.NotCovered = "the summation arithmetic of rowspan/colspan in getRowAndColumnCount (only which elements/attributes are counted is decided), hasValidText, CSS based rules of the original heuristic (not ported), behaviour for more than one loop iteration (loops are abstracted to 0/1 iterations)."
 	r.Trusted = append(r.Trusted, "names of the Classifier helper methods used as anchors (getRowAndColumnCount, getDirectDescendants, hasOneOfElements, hasValidText, logAndReturn)")
 
 	classify := mustFunc(p, r, "T1", "(*"+classifierPkg+".Classifier).Classify")
@@ -202,6 +202,31 @@ func C18(p *core.Program, r *core.Report) {
 
 	// T4: converter: data tables atomic, layout tables walked
 	checkConverterTableCase(p, r)
+
+	// T5: what counts as a row / a column: rows are tr elements (rowspan aware), columns are the
+	// td cells of a row (colspan aware). Decided on the constants handed to the DOM helpers.
+	rc := mustFunc(p, r, "T5", "(*"+classifierPkg+".Classifier).getRowAndColumnCount")
+	if rc != nil {
+		consts := map[string]bool{}
+		for _, c := range core.Calls(rc, func(c ssa.CallInstruction) bool {
+			f := core.Callee(c)
+			return f != nil && core.FnPkgPath(f) == "github.com/go-shiori/dom"
+		}) {
+			for _, a := range c.Common().Args {
+				if s, ok := core.ConstString(a); ok {
+					consts[s] = true
+				}
+			}
+		}
+		var got []string
+		for s := range consts {
+			got = append(got, s)
+		}
+		sort.Strings(got)
+		want := []string{"colspan", "rowspan", "td", "tr"}
+		r.Add("T5", "getRowAndColumnCount: selectors and span attributes", p.Pos(rc.Pos()), sameSet(got, want),
+			fmt.Sprintf("DOM selector/attribute constants used: %v; documented: rows=tr (rowspan), columns=td cells per row (colspan): %v", got, want))
+	}
 }
 
 func exprText(e any) string {
